@@ -510,10 +510,10 @@ def _wrapper_kind(a: ast.Assign) -> str:
 
 
 def run(ctx: Context) -> None:
-    r1_no_state_leak(ctx)
-    r2_release_policy_dispatch(ctx)
-    r3_keyword_agreement(ctx)
-    r4_fresh_copy(ctx)
-    r5_deadline_dataflow(ctx)
-    r6_closed_loop(ctx)
-    r7_config_type_agreement(ctx)
+    ctx.isolate(r1_no_state_leak)
+    ctx.isolate(r2_release_policy_dispatch)
+    ctx.isolate(r3_keyword_agreement)
+    ctx.isolate(r4_fresh_copy)
+    ctx.isolate(r5_deadline_dataflow)
+    ctx.isolate(r6_closed_loop)
+    ctx.isolate(r7_config_type_agreement)
